@@ -87,9 +87,18 @@ func runC29(c *Ctx) {
 		ij := c.Func("internal/remoteclient", "client.injectMessageMetadata")
 		iinfo := ij.Info()
 		copies := false
+		var injected types.Object // the carrier handed to the propagator's Inject
+		ast.Inspect(ij.Decl.Body, func(n ast.Node) bool {
+			if call, ok := n.(*ast.CallExpr); ok && len(call.Args) == 2 {
+				if cal := callee(iinfo, call); cal != nil && cal.Name() == "Inject" {
+					injected = objOf(iinfo, call.Args[1])
+				}
+			}
+			return true
+		})
 		ast.Inspect(ij.Decl.Body, func(n ast.Node) bool {
 			if r, ok := n.(*ast.RangeStmt); ok {
-				if o := objOf(iinfo, r.X); o != nil && o.Name() == "headers" {
+				if o := objOf(iinfo, r.X); o != nil && o == injected {
 					ast.Inspect(r.Body, func(m ast.Node) bool {
 						if as, ok := m.(*ast.AssignStmt); ok {
 							if ix, ok := as.Lhs[0].(*ast.IndexExpr); ok && objOf(iinfo, ix.Index) == iinfo.ObjectOf(r.Key.(*ast.Ident)) {
@@ -177,7 +186,8 @@ func runC29(c *Ctx) {
 			ast.Inspect(fn.Decl.Body, func(m ast.Node) bool {
 				if as, ok := m.(*ast.AssignStmt); ok && len(as.Rhs) == 1 && len(as.Lhs) == 2 {
 					if call, ok := as.Rhs[0].(*ast.CallExpr); ok && callee(info, call) == enrich {
-						if o := objOf(info, as.Lhs[0]); o != nil && o.Name() == "ctx" && objOf(info, call.Args[0]) == o {
+						// ctx, err = enrichContext(ctx, …): the enriched context replaces the one it was derived from
+						if o := objOf(info, as.Lhs[0]); o != nil && objOf(info, call.Args[0]) == o {
 							okAssign = true
 						}
 					}
@@ -232,7 +242,7 @@ func runC29(c *Ctx) {
 		copies, extracts := false, false
 		ast.Inspect(mf.Decl.Body, func(n ast.Node) bool {
 			if r, ok := n.(*ast.RangeStmt); ok {
-				if o := objOf(minfo, r.X); o != nil && o.Name() == "md" {
+				if o := objOf(minfo, r.X); o != nil && isMapParam(mf.Obj, o) {
 					ast.Inspect(r.Body, func(m ast.Node) bool {
 						if call, ok := m.(*ast.CallExpr); ok {
 							if cal := callee(minfo, call); cal != nil && cal.Name() == "Set" && len(call.Args) == 2 {
@@ -254,4 +264,15 @@ func runC29(c *Ctx) {
 		})
 		c.Check(copies && extracts, "restore-copies-every-entry", "every metadata entry is handed to the propagator's Extract under its own key", c.P.Pos(mf.Decl.Pos()), "")
 	})
+}
+
+// isMapParam: o is a map-typed parameter of fn.
+func isMapParam(fn *types.Func, o types.Object) bool {
+	ps := fn.Type().(*types.Signature).Params()
+	for i := 0; i < ps.Len(); i++ {
+		if _, isMap := ps.At(i).Type().Underlying().(*types.Map); isMap && o == types.Object(ps.At(i)) {
+			return true
+		}
+	}
+	return false
 }
